@@ -124,6 +124,8 @@ def dump_heap(ctx, ex, model, entry_env, max_len=6):
         if isinstance(val, VSeq):
             n = ev(z3.Length(val.t)).as_long()
             return [conv(ctx.val_of(val.elem_kind, val.t[z3.IntVal(i)])) for i in range(min(n, max_len))]
+        if isinstance(val, VElem):
+            return {'elem': elem_json(ev(val.t))}
         if isinstance(val, VPy):
             return {'py': str(ev(val.t))}
         return {'unsupported': str(val.kind)}
@@ -140,6 +142,16 @@ def dump_heap(ctx, ex, model, entry_env, max_len=6):
         if name == 'DReal':
             return float(d.arg(0).as_fraction())
         return None
+
+    def elem_json(e, depth=0):
+        # EElem(tag, has_text, text, kids)
+        if e.decl().name() != 'EElem' or depth > 12:
+            return {'tag': 'unknown', 'text': None, 'kids': []}
+        kids, lst = [], e.arg(3)
+        while lst.decl().name() == 'ECons' and len(kids) < 12:
+            kids.append(elem_json(lst.arg(0), depth + 1))
+            lst = lst.arg(1)
+        return {'tag': e.arg(0).as_string(), 'text': e.arg(2).as_string() if z3.is_true(e.arg(1)) else None, 'kids': kids}
 
     def node_json(n, depth=0):
         if n.decl().name() == 'NNil' or depth > 12:
